@@ -9,5 +9,6 @@ import (
 func TestReplay(t *testing.T) {
 	verif.ReplayMain(map[string]func(){
 		"HarnessPanicHTTP": HarnessPanicHTTP,
+		"HarnessPanicWS":   HarnessPanicWS,
 	})
 }
